@@ -166,8 +166,8 @@ func ExecCtx(ctx context.Context, st storage.Store, text string, chanSize, bulkS
 // NewStore builds a memory store holding exactly the given graphs. The content is not reached by inserts alone
 // (the property speaks of any contents of the queried graphs, however they came about): every graph first gets,
 // next to its triples, a sibling of each triple (another object; the other kind or another instant of its
-// predicate), then the siblings are removed again, then triples that were never stored (further siblings) are
-// removed too, and the triples themselves are added a second time. What the graph holds afterwards is the given
+// predicate), then the siblings are removed again, then the triples themselves are added a second time, and
+// last triples that were never stored (further siblings) are removed. What the graph holds afterwards is the given
 // set; what its indexes hold is what the driver's add and remove paths left there.
 func NewStore(graphs map[string][]*triple.Triple) storage.Store {
 	ctx := context.Background()
@@ -210,8 +210,8 @@ func NewStore(graphs map[string][]*triple.Triple) storage.Store {
 		}
 		must(g.AddTriples(ctx, append(append([]*triple.Triple{}, ts...), noise...)))
 		must(g.RemoveTriples(ctx, noise))
-		must(g.RemoveTriples(ctx, absent))
 		must(g.AddTriples(ctx, ts))
+		must(g.RemoveTriples(ctx, absent)) // last: nothing after it repairs what a removal of absent triples damaged
 	}
 	return st
 }
